@@ -5,7 +5,7 @@ PATCH=$1; shift
 cd /repo || exit 2
 if ! git diff --quiet; then echo "/repo not clean"; exit 2; fi
 git apply "$PATCH" || { echo "patch does not apply"; exit 2; }
-trap 'git -C /repo checkout -- . ' EXIT
+trap 'git -C /repo checkout -- . ; git -C /repo clean -fdq src' EXIT
 for id in "$@"; do
   out=$(cd /verif && VERIF_TIER=${TIER:-quick} ./check $id --tier ${TIER:-quick} 2>&1)
   code=$?
